@@ -8,6 +8,7 @@ import (
 	"github.com/pkg/errors"
 
 	"github.com/ThreeDotsLabs/watermill"
+	"github.com/ThreeDotsLabs/watermill/internal/verifhook"
 	"github.com/ThreeDotsLabs/watermill/message"
 )
 
@@ -84,6 +85,7 @@ func (g *GoChannel) Publish(topic string, messages ...*message.Message) error {
 	if g.isClosed() {
 		return errors.New("Pub/Sub closed")
 	}
+	verifhook.At("gochannel.publish.after_closed_check", g)
 
 	messagesToPublish := make(message.Messages, len(messages))
 	for i, msg := range messages {
@@ -96,6 +98,7 @@ func (g *GoChannel) Publish(topic string, messages ...*message.Message) error {
 	subLock, _ := g.subscribersByTopicLock.LoadOrStore(topic, &sync.Mutex{})
 	subLock.(*sync.Mutex).Lock()
 	defer subLock.(*sync.Mutex).Unlock()
+	verifhook.At("gochannel.publish.locked", g)
 
 	if g.config.Persistent {
 		g.persistedMessagesLock.Lock()
@@ -104,6 +107,7 @@ func (g *GoChannel) Publish(topic string, messages ...*message.Message) error {
 		}
 		g.persistedMessages[topic] = append(g.persistedMessages[topic], messagesToPublish...)
 		g.persistedMessagesLock.Unlock()
+		verifhook.At("gochannel.publish.persisted", g)
 	}
 
 	for i := range messagesToPublish {
@@ -185,6 +189,7 @@ func (g *GoChannel) Subscribe(ctx context.Context, topic string) (<-chan *messag
 
 	subLock, _ := g.subscribersByTopicLock.LoadOrStore(topic, &sync.Mutex{})
 	subLock.(*sync.Mutex).Lock()
+	verifhook.At("gochannel.subscribe.locked", g)
 
 	s := &subscriber{
 		ctx:           ctx,
@@ -211,6 +216,7 @@ func (g *GoChannel) Subscribe(ctx context.Context, topic string) (<-chan *messag
 		subLock.(*sync.Mutex).Lock()
 		defer subLock.(*sync.Mutex).Unlock()
 
+		verifhook.At("gochannel.unsubscribe.before_remove", g)
 		g.removeSubscriber(topic, s)
 		g.subscribersWg.Done()
 	}(s, g)
@@ -228,6 +234,7 @@ func (g *GoChannel) Subscribe(ctx context.Context, topic string) (<-chan *messag
 		defer g.subscribersLock.Unlock()
 		defer subLock.(*sync.Mutex).Unlock()
 
+		verifhook.At("gochannel.subscribe.replay", g)
 		g.persistedMessagesLock.RLock()
 		messages, ok := g.persistedMessages[topic]
 		g.persistedMessagesLock.RUnlock()
@@ -242,6 +249,7 @@ func (g *GoChannel) Subscribe(ctx context.Context, topic string) (<-chan *messag
 		}
 
 		g.addSubscriber(topic, s)
+		verifhook.At("gochannel.subscribe.registered", g)
 	}(s)
 
 	return s.outputChannel, nil
@@ -299,6 +307,7 @@ func (g *GoChannel) Close() error {
 
 	g.closed = true
 	close(g.closing)
+	verifhook.At("gochannel.close.signalled", g)
 
 	g.logger.Debug("Closing Pub/Sub, waiting for subscribers", nil)
 	g.subscribersWg.Wait()
@@ -330,6 +339,7 @@ func (s *subscriber) Close() {
 
 	s.logger.Debug("Closing subscriber, waiting for sending lock", nil)
 
+	verifhook.At("gochannel.sub.close.before_lock", s.ctx)
 	// ensuring that we are not sending to closed channel
 	s.sending.Lock()
 	defer s.sending.Unlock()
@@ -343,6 +353,7 @@ func (s *subscriber) Close() {
 func (s *subscriber) sendMessageToSubscriber(msg *message.Message, logFields watermill.LogFields) {
 	s.sending.Lock()
 	defer s.sending.Unlock()
+	verifhook.At("gochannel.send.locked", s.ctx)
 
 	ctx, cancelCtx := context.WithCancel(s.ctx)
 	defer cancelCtx()
@@ -361,6 +372,7 @@ SendToSubscriber:
 			return
 		}
 
+		verifhook.At("gochannel.send.before_chan", s.ctx)
 		select {
 		case s.outputChannel <- msgToSend:
 			s.logger.Trace("Sent message to subscriber", logFields)
@@ -369,6 +381,7 @@ SendToSubscriber:
 			return
 		}
 
+		verifhook.At("gochannel.send.wait_settle", s.ctx)
 		select {
 		case <-msgToSend.Acked():
 			s.logger.Trace("Message acked", logFields)
